@@ -129,6 +129,18 @@ def build_case(bdir, seed, kind, profile, casedir):
             if prof.get("xattrs"):
                 opts.append("-x")
             c.expected = ("packdir",)
+        rs = rng(seed, "sortfile")
+        if prof.get("sortfile", rs.randrange(4) == 0):
+            # a sort file changes packing order and per-file block flags, never the logical tree
+            files = [e for e in ents if e.type == treegen.FILE]
+            with open(os.path.join(casedir, "sort.txt"), "wb") as f:
+                for e in files:
+                    if rs.randrange(3) == 0:
+                        continue
+                    fl = [x for x in (b"dont_compress", b"dont_fragment", b"dont_deduplicate", b"nosparse") if rs.randrange(4) == 0]
+                    f.write(b"%d %s%s\n" % (rs.randrange(-3, 4), (b"[" + b",".join(fl) + b"] ") if fl else b"", treegen.sort_name(e.path)))
+            opts += ["-S", "sort.txt"]
+            c.desc["sortfile"] = True
         c.argv = opts + ["out.sqfs"]
         c.out_image = "out.sqfs"
         c.outputs = {"image": "out.sqfs"}
